@@ -296,12 +296,17 @@ func monC16(c *child.Ctx, replay json.RawMessage) {
 			k.TZ = ""
 			c.Count("runs_at_chosen_time_of_day", 1)
 		}
-		if sb := c.NBatch - 1 - c.Batch; i == 1 && sb < len(timedStalls(c)) {
+		if sb := c.NBatch - 1 - c.Batch; i == 1 && (sb < len(timedStalls(c)) || sb == len(timedStalls(c)) && !c.Thorough()) {
 			// a live source that falls silent for a while and then carries on
 			k.Stdin, k.Size, k.Chunk, k.GapUs, k.Hook = "pipe", r.Range(9000, 30000), 3000, -2000, ""
 			k.SilenceAfterChunks = r.Range(1, 2)
-			k.SilenceMs = int(timedStalls(c)[sb].Milliseconds())
-			if k.SilenceMs >= 1000 {
+			if sb == len(timedStalls(c)) {
+				// one run of the quick tier lasts longer than a minute
+				k.SilenceMs = 65500
+			} else {
+				k.SilenceMs = int(timedStalls(c)[sb].Milliseconds())
+			}
+			if k.SilenceMs >= 1000 && k.SilenceMs < 60000 {
 				k.SilenceMs = k.SilenceMs*10 + 500 // 12.5 s; thorough: up to 105 s
 			}
 			if sb%2 == 1 {
@@ -310,6 +315,13 @@ func monC16(c *child.Ctx, replay json.RawMessage) {
 				k.Chunk = 8096 * r.Range(1, 3)
 				k.Size = k.Chunk*k.SilenceAfterChunks + r.Range(1, 9000)
 				k.GapUs = -20000
+			}
+			// the event log is on in the longest of these and in every other one (whatever
+			// a running program logs once a minute or once an hour, the record stays the copy)
+			k.LogEvents = sb%2 == 0 || k.SilenceMs > 60000
+			if k.LogEvents {
+				k.NoEventDir = false
+				c.Count("runs_with_silent_input_and_event_log", 1)
 			}
 			c.Count("runs_with_silent_input", 1)
 		}
